@@ -10,7 +10,7 @@ REPO = os.environ.get('VERIF_REPO', '/repo')
 PY = os.environ.get('VERIF_PY', '/venv/bin/python')
 OUT = os.path.join(VERIF, 'out')
 EVIDENCE = os.path.join(VERIF, 'evidence')
-KNOWN_FILE = os.path.join(VERIF, 'known_findings.json')
+KNOWN_FILE = os.environ.get('VERIF_KNOWN') or os.path.join(VERIF, 'known_findings.json')      # VERIF_KNOWN: a scratch copy, for trying out entries before they are committed
 
 # exit codes
 HELD, VIOLATED, INCONCLUSIVE = 0, 1, 2
